@@ -86,6 +86,12 @@ func TestTimerProbes(t *testing.T) {
 		{"timeout whose function returns in time", func() {
 			failsafe.NewExecutor[int](timeout.With[int](time.Hour)).Get(func() (int, error) { return 1, nil })
 		}},
+		{"timeout whose function returns the library's own ErrExceeded in time (a nested execution's timeout)", func() {
+			failsafe.NewExecutor[int](timeout.With[int](time.Hour)).Get(func() (int, error) { return 0, timeout.ErrExceeded })
+		}},
+		{"timeout around a retry policy whose attempts fail in time", func() {
+			failsafe.NewExecutor[int](timeout.With[int](time.Hour), retrypolicy.Builder[int]().WithMaxRetries(1).Build()).Get(func() (int, error) { return 0, fmt.Errorf("wrapped: %w", timeout.ErrExceeded) })
+		}},
 		{"hedge whose first attempt returns before the hedge delay", func() {
 			failsafe.NewExecutor[int](hedgepolicy.BuilderWithDelay[int](time.Hour).Build()).Get(func() (int, error) { return 1, nil })
 		}},
